@@ -153,12 +153,16 @@ func ParseSelect(statement *sqlparser.Select) (logical.Node, *OutputOptions, err
 		}
 		nameCounter := map[string]int{}
 		getUniqueName := func(name string) string {
-			count, ok := nameCounter[name]
-			if ok {
+			for {
+				count, used := nameCounter[name]
+				nameCounter[name] = count + 1
+				if !used {
+					return name
+				}
+				// The counter of the requested name advances, and the suffixed candidate is checked as well,
+				// so that a third column of one name doesn't repeat the second one's name.
 				name = fmt.Sprintf("%s_%d", name, count)
 			}
-			nameCounter[name] = count + 1
-			return name
 		}
 		for i, ok := range isAggregate {
 			if ok {
